@@ -189,7 +189,7 @@ def step (s : St) (line : String) : St × String :=
   | ["locend", k] =>
     match parseHex k with
     | some k =>
-      match locateEndKey s.cache s.pd k with
+      match locateEndKey (fuelOf s) s.cache s.pd k with
       | (c, .ok r) =>
         ({ s with cache := c }, verdict [(r.containsByEnd k, "not-contained"), (known s r, "unknown-region"), (noRegress s.cache c, "regress")] ++ " " ++ fmtR r)
       | (c, .error _) => ({ s with cache := c }, "err")
